@@ -460,3 +460,368 @@ if __name__ == "__main__":
         if not p.exists() or p.read_text() != content:
             p.write_text(content)
             print("wrote", rel)
+
+
+# ---------------------------------------------------------------------------------------------- random well-formed handlers
+
+BASE_NAMES = [b"exitFrame", b"put", b"x", b"y", b"gList", b"count", b"getAt", b"return", b"sound", b"go", b"new", b"birth",
+              b"me", b"cast", b"continue", b"exit", b"getPos", b"GetOne", b"findPos", b"getaProp", b"loop", b"next", b"playFile",
+              b"ancestor", b"actorList", b"updateMovieEnabled", b"frameLabel", b"result", b"date", b"mouseH", b"stillDown",
+              b"menus", b"mNew", b"mDo", b"12", b" 7", b"<x", b"tell_obj", b"_movie", b"f\x8ar", b"Name", b"myProp", b"other",
+              b"window", b"append", b"floatPrecision", b"itemDelimiter", b"close", b"stop", b"fadeIn", b"movieName", b"b", b"t"]
+
+SPECIAL_STR = [b"", b"\x08", b"\x03", b"\"", b"\r", b"\t", b"a\tb", b"\\", b"x\\ty", b"& \"", b"a\"b", b"\n", b"\x7f", b"caf\x8e",
+               b"& \x08", b"'", b"\r\r", b"a & b", b"tab\there", b"\x00", b"\xff\xfe", b"100", b"field(1)", b"(x)"]
+
+BINOPS = [0x04, 0x05, 0x06, 0x07, 0x08, 0x0A, 0x0B, 0x0C, 0x0D, 0x0E, 0x0F, 0x10, 0x11, 0x12, 0x13, 0x15, 0x16, 0x19, 0x1A]
+
+
+class Frag:
+    """code bytes + offsets of `93 xx xx` exit-repeat jumps still to be patched"""
+    def __init__(self, code=b"", exits=()):
+        self.code, self.exits = bytes(code), list(exits)
+
+    def __add__(self, o):
+        if isinstance(o, (bytes, bytearray)):
+            o = Frag(o)
+        return Frag(self.code + o.code, self.exits + [e + len(self.code) for e in o.exits])
+
+    def __len__(self):
+        return len(self.code)
+
+
+class HandlerGen:
+    """generates one handler as a structured program compiled with the scheme of DESIGN.md Appendix A/D; the expression stack
+    is balanced by construction. `wild` (0..1) is the probability of deliberately odd operands (out-of-range indices,
+    non-constant property selectors, operands that are not multiples of the record width)."""
+
+    def __init__(self, rng, names, nconst, nargs, nlocals, nhandlers, bpc=6, wild=0.03, hist=None):
+        self.r, self.names, self.nconst, self.nargs, self.nlocals, self.nh, self.bpc, self.wild = rng, names, nconst, nargs, nlocals, nhandlers, bpc, wild
+        self.hist = hist if hist is not None else {}
+        self.idx = {n: i for i, n in reversed(list(enumerate(names)))}
+
+    def h(self, k):
+        self.hist[k] = self.hist.get(k, 0) + 1
+
+    def nm(self, want=None):
+        if want is not None and want in self.idx and self.idx[want] < 256:
+            return self.idx[want]
+        if self.r.random() < self.wild:
+            return self.r.randrange(0, 256)
+        return self.r.randrange(0, min(len(self.names), 256))
+
+    def off(self, n):
+        """record offset operand for index < n"""
+        if n == 0 or self.r.random() < self.wild:
+            return self.r.randrange(0, 256)
+        k = self.r.randrange(0, n) * self.bpc
+        return k if k < 256 else 0
+
+    def int_(self, v):
+        if v == 0 and self.r.random() < 0.7:
+            self.h("zero"); return bytes([0x03])
+        if -128 <= v < 128 and self.r.random() < 0.85:
+            self.h("int8"); return bytes([0x41, v & 0xFF])
+        self.h("int16"); return bytes([0x81, (v >> 8) & 0xFF, v & 0xFF])
+
+    def lit(self):
+        if self.nconst == 0:
+            return self.int_(self.r.randrange(-3, 300))
+        k = self.r.randrange(0, self.nconst) * self.bpc
+        if self.r.random() < self.wild:
+            k = self.r.randrange(0, 70000)
+        if k < 256 and self.r.random() < 0.8:
+            self.h("lit"); return bytes([0x44, k])
+        self.h("lit2"); return bytes([0x84, (k >> 8) & 0xFF, k & 0xFF])
+
+    def args(self, n, depth, paren):
+        code = Frag()
+        for _ in range(n):
+            code += self.expr(depth + 1)
+        if n < 256 and self.r.random() < 0.9:
+            self.h("args1"); return code + bytes([0x43 if paren else 0x42, n])
+        self.h("args2"); return code + bytes([0x83 if paren else 0x82, n >> 8, n & 0xFF])
+
+    def simple(self):
+        c = self.r.randrange(9)
+        if c == 0: return Frag(self.int_(self.r.choice([0, 1, 2, 5, -1, 127, 128, -128, 255, 256, 32767, -32768, 1000])))
+        if c == 1: return Frag(self.lit())
+        if c == 2: self.h("global"); return Frag(bytes([self.r.choice([0x48, 0x49]), self.nm()]))
+        if c == 3: self.h("var46"); return Frag(bytes([0x46, self.nm()]))
+        if c == 4: self.h("prop4a"); return Frag(bytes([0x4A, self.nm()]))
+        if c == 5: self.h("the5f"); return Frag(bytes([0x5F, self.nm(self.r.choice([None, b"updateMovieEnabled", b"frameLabel", b"actorList"]))]))
+        if c == 6 and self.nargs: self.h("param"); return Frag(bytes([0x4B, self.off(self.nargs)]))
+        if c == 7 and self.nlocals: self.h("local"); return Frag(bytes([0x4C, self.off(self.nlocals)]))
+        self.h("int8"); return Frag(bytes([0x41, self.r.randrange(0, 20)]))
+
+    def selector(self, lo, hi):
+        """the small-integer operand that selects a property; occasionally out of range or not a constant"""
+        x = self.r.random()
+        if x < self.wild: return self.expr(3)
+        if x < 2 * self.wild: return Frag(self.int_(self.r.choice([-1, hi + 1, 200, -7, 0])))
+        return Frag(self.int_(self.r.randrange(lo, hi + 1)))
+
+    def chunk8(self, depth):
+        """eight chunk values firstChar lastChar firstWord lastWord firstItem lastItem firstLine lastLine"""
+        code = Frag()
+        for _ in range(4):
+            if self.r.random() < 0.35:
+                code += self.expr(depth + 2) if self.r.random() < 0.3 else Frag(self.int_(self.r.randrange(1, 9)))
+                code += (self.expr(depth + 2) if self.r.random() < 0.2 else Frag(self.int_(self.r.randrange(1, 9)))) if self.r.random() < 0.4 else Frag(bytes([0x03]))
+            else:
+                code += Frag(bytes([0x03, 0x03]))
+        return code
+
+    def expr(self, depth=0):
+        if depth > 3 or self.r.random() < 0.35:
+            return self.simple()
+        c = self.r.randrange(22)
+        if c == 0:
+            self.h("sym"); return Frag(bytes([0x45, self.nm(self.r.choice([None, b"loop", b"next"]))]))
+        if c == 1:
+            self.h("unary"); return self.expr(depth + 1) + bytes([self.r.choice([0x09, 0x14, 0x1B])])
+        if c in (2, 3, 4):
+            self.h("binary"); return self.expr(depth + 1) + self.expr(depth + 1) + bytes([self.r.choice(BINOPS)])
+        if c == 5:
+            self.h("callext"); return self.args(self.r.choice([0, 1, 1, 2, 3]), depth, True) + bytes([0x57, self.nm(self.r.choice([None, None, b"getPos", b"GetOne", b"new", b"go", b"cast", b"sound", b"count", b"me", b"birth", b"return"]))])
+        if c == 6 and self.nh:
+            self.h("calllocal"); return self.args(self.r.choice([0, 1, 2]), depth, True) + bytes([0x56, self.r.randrange(self.nh) if self.r.random() > self.wild else self.r.randrange(256)])
+        if c == 7:
+            self.h("list"); return self.args(self.r.choice([0, 1, 2, 3]), depth, True) + bytes([0x1E])
+        if c == 8:
+            self.h("proplist")
+            n = self.r.choice([0, 1, 2]); code = Frag()
+            for _ in range(n):
+                code += Frag(bytes([0x45, self.nm()])) + self.expr(depth + 1)
+            k = 2 * n + (1 if self.r.random() < self.wild else 0)
+            if k > 2 * n: code += self.simple()
+            return code + bytes([0x43, k, 0x1F])
+        if c == 9:
+            self.h("chunkexpr"); return self.chunk8(depth) + self.expr(depth + 1) + bytes([0x17])
+        if c == 10:
+            self.h("numberof"); return self.expr(depth + 1) + self.selector(1, 4) + bytes([0x5C, 0x01])
+        if c == 11:
+            self.h("last"); return self.expr(depth + 1) + self.selector(12, 15) + bytes([0x5C, 0x00])
+        if c == 12:
+            self.h("special"); return self.selector(0, 11) + bytes([0x5C, 0x00])
+        if c == 13:
+            which = self.r.choice([(0x06, 34), (0x09, 18), (0x04, 1), (0x0D, 16), (0x0B, 18)])
+            self.h("objprop%02x" % which[0]); return self.expr(depth + 2) + self.selector(1, which[1]) + bytes([0x5C, which[0]])
+        if c == 14:
+            self.h("menuitemprop"); return self.expr(depth + 2) + self.expr(depth + 2) + self.selector(1, 4) + bytes([0x5C, 0x03])
+        if c == 15:
+            k = self.r.choice([1, 2])
+            self.h("menuname"); return self.expr(depth + 2) + Frag(self.int_(k if self.r.random() > self.wild else 3)) + bytes([0x5C, 0x02])
+        if c == 16:
+            self.h("numcast"); return self.selector(1, 3) + bytes([0x5C, 0x08])
+        if c == 17:
+            self.h("sysprop"); return self.selector(0, 34) + bytes([0x5C, 0x07])
+        if c == 18:
+            self.h("keyprop"); return Frag(bytes([0x43, 0x00, 0x66, self.nm(self.r.choice([None, b"result", b"date", b"mouseH", b"stillDown"]))]))
+        if c == 19:
+            self.h("propacc"); return self.expr(depth + 1) + bytes([0x61, self.nm()])
+        if c == 20:
+            return self.objcall(depth, True)
+        if c == 21:
+            # peek: duplicate a simple value that was just pushed (no Symbol / list is ever shared)
+            self.h("peek"); return self.simple() + bytes([0x64, 0x00]) + bytes([self.r.choice(BINOPS)])
+        return self.simple()
+
+    def objcall(self, depth, paren):
+        """factory method call: sym m; args; ARGS|args k; target; 58 t"""
+        self.h("objcall")
+        n = self.r.choice([0, 1, 2])
+        code = Frag(bytes([0x45, self.nm(self.r.choice([None, b"mNew", b"mDo"]))]))
+        for _ in range(n):
+            code += self.expr(depth + 1)
+        if self.r.random() < self.wild:
+            code = Frag(); n = -1    # empty argument list
+        code += bytes([0x43 if paren else 0x42, n + 1])
+        t = self.r.choice([1, 2, 3, 3, 4, 5, 5]) if self.r.random() > self.wild else self.r.choice([0, 6, 7])
+        if t in (1, 2, 3):
+            tgt = Frag(bytes([self.r.choice([0x46, 0x49]), self.nm(self.r.choice([None, b"me", b"gList"]))])) if self.r.random() < 0.9 else self.simple()
+        elif t == 4:
+            tgt = Frag(self.int_(self.off(self.nargs)))
+        else:
+            tgt = Frag(self.int_(self.off(self.nlocals)))
+        return code + tgt + bytes([0x58, t])
+
+    def put_target(self, depth):
+        """(code after the value+chunk values, opcode second byte low nibble)"""
+        k = self.r.choice(["field", "list", "local"] if self.nlocals else ["field", "list"])
+        if k == "field": return self.expr(depth + 1), 0x06
+        if k == "list": return Frag(bytes([0x46, self.nm()])) if self.r.random() < 0.8 else self.expr(depth + 1), 0x02
+        return Frag(self.int_(self.off(self.nlocals))), 0x05
+
+    def simple_stmt(self, depth, in_tell=False):
+        c = self.r.randrange(20)
+        if c in (0, 1) and self.nlocals:
+            self.h("setlocal"); return self.expr(depth) + bytes([0x52, self.off(self.nlocals)])
+        if c == 2 and self.nargs:
+            self.h("setparam"); return self.expr(depth) + bytes([0x51, self.off(self.nargs)])
+        if c == 3:
+            self.h("setglobal"); return self.expr(depth) + bytes([self.r.choice([0x4E, 0x4F]), self.nm()])
+        if c == 4:
+            self.h("setprop"); return self.expr(depth) + bytes([self.r.choice([0x50, 0x60]), self.nm(self.r.choice([None, b"myProp"]))])
+        if c in (5, 6):
+            if in_tell and self.r.random() < 0.7:
+                self.h("tellcall"); return self.args(self.r.choice([0, 1, 2]), depth, False) + bytes([0x63, self.nm(self.r.choice([None, b"go", b"put"]))])
+            self.h("callstmt")
+            nm = self.r.choice([None, b"put", b"put", b"return", b"sound", b"go", b"exit", b"new", b"append", b"getPos", b"me", b"continue"])
+            n = self.r.choice([0, 1, 1, 2, 3])
+            if nm == b"sound":
+                code = Frag(bytes([0x45, self.nm(self.r.choice([b"playFile", b"fadeIn", b"stop", None]))]))
+                for _ in range(n): code += self.expr(depth + 1)
+                return code + bytes([0x42, n + 1, 0x57, self.nm(nm)])
+            return self.args(n, depth, False) + bytes([0x57, self.nm(nm)])
+        if c == 7 and self.nh:
+            self.h("calllocalstmt"); return self.args(self.r.choice([0, 1]), depth, False) + bytes([0x56, self.r.randrange(self.nh)])
+        if c == 8:
+            mode = self.r.choice([0x10, 0x20, 0x30])
+            if self.nlocals and self.r.random() < 0.5:
+                self.h("putlocal"); return self.expr(depth) + Frag(self.int_(self.off(self.nlocals))) + bytes([0x59, mode | 0x05])
+            self.h("putfield"); return self.expr(depth) + self.expr(depth + 1) + bytes([0x59, mode | 0x06])
+        if c == 9:
+            tgt, lo = self.put_target(depth)
+            mode = self.r.choice([0x10, 0x20, 0x30])
+            if lo == 0x06 and mode == 0x10 and self.r.random() < 0.3:
+                mode = 0x00     # 5a06 PutIntoFieldOpcode
+            self.h("putchunk%02x" % (mode | lo)); return self.expr(depth) + self.chunk8(depth) + tgt + bytes([0x5A, mode | lo])
+        if c == 10:
+            tgt, lo = self.put_target(depth)
+            self.h("delete%02x" % lo); return self.chunk8(depth) + tgt + bytes([0x5B, lo])
+        if c == 11:
+            self.h("hilite"); return self.chunk8(depth) + self.expr(depth + 1) + bytes([0x18])
+        if c == 12:
+            which = self.r.choice([(0x06, 34), (0x09, 18), (0x04, 1), (0x0D, 16), (0x0B, 18)])
+            self.h("setobjprop%02x" % which[0]); return self.expr(depth + 1) + self.expr(depth) + self.selector(1, which[1]) + bytes([0x5D, which[0]])
+        if c == 13:
+            self.h("setmenuitem"); return self.expr(depth + 2) + self.expr(depth + 2) + self.expr(depth) + self.selector(1, 4) + bytes([0x5D, 0x03])
+        if c == 14:
+            self.h("setsys"); return self.expr(depth) + self.selector(0, 34) + bytes([0x5D, 0x07])
+        if c == 15:
+            self.h("setspecial"); return self.expr(depth) + self.selector(0, 11) + bytes([0x5D, 0x00])
+        if c == 16:
+            self.h("setpropacc"); return self.expr(depth + 1) + self.expr(depth) + bytes([0x62, self.nm()])
+        if c == 17:
+            return self.objcall(depth, False)
+        if c == 18:
+            # `tell obj to f(args)`: args…, obj; ARGS n+1; to_list; 67 f  (statement form uses a plain load_list)
+            self.h("tellto")
+            n = self.r.choice([0, 1, 2]); code = Frag()
+            for _ in range(n): code += self.expr(depth + 1)
+            code += self.expr(depth + 1)
+            return code + bytes([self.r.choice([0x42, 0x42, 0x43]), n + 1, 0x1E, 0x67, self.nm()])
+        if c == 19:
+            self.h("exprpop"); return self.expr(depth) + bytes([0x65, 0x01])
+        self.h("callstmt"); return self.args(1, depth, False) + bytes([0x57, self.nm(b"put")])
+
+    def block(self, n, depth, in_loop, in_tell=False):
+        code = Frag()
+        for _ in range(n):
+            code += self.stmt(depth, in_loop, in_tell)
+        return code
+
+    def stmt(self, depth, in_loop, in_tell=False):
+        x = self.r.random()
+        if depth >= 3 or x < 0.62:
+            return self.simple_stmt(depth, in_tell)
+        body_n = lambda: self.r.choice([0, 1, 1, 2, 2, 3]) if self.r.random() < 0.08 else self.r.choice([1, 1, 2, 2, 3])
+        if x < 0.74:
+            self.h("if")
+            c = self.expr(1); a = self.block(body_n(), depth + 1, in_loop, in_tell)
+            return c + bytes([0x95]) + (3 + len(a)).to_bytes(2, "big") + a
+        if x < 0.82:
+            self.h("ifelse")
+            c = self.expr(1); a = self.block(body_n(), depth + 1, in_loop, in_tell); b = self.block(body_n(), depth + 1, in_loop, in_tell)
+            return c + bytes([0x95]) + (3 + len(a) + 3).to_bytes(2, "big") + a + bytes([0x93]) + (3 + len(b)).to_bytes(2, "big") + b
+        if x < 0.86 and in_loop:
+            self.h("exitrepeat")
+            return Frag(bytes([0x93, 0, 0]), [0])
+        if x < 0.90 and not in_tell:
+            self.h("tell")
+            return self.expr(1) + bytes([0x1C]) + self.block(body_n(), depth + 1, in_loop, True) + bytes([0x1D])
+        kind = self.r.choice(["while", "with", "down", "in"] if self.nlocals else ["while"])
+        body = self.block(body_n(), depth + 1, True, in_tell)
+        if kind == "while":
+            c = self.expr(1)
+            pre, head, tail = Frag(), c, Frag()
+        elif kind in ("with", "down"):
+            i = self.off(self.nlocals)
+            pre = self.expr(1) + bytes([0x52, i])
+            head = Frag(bytes([0x4C, i])) + self.expr(1) + bytes([0x0D if kind == "with" else 0x11])
+            tail = Frag(bytes([0x41, 0x01 if kind == "with" else 0xFF, 0x4C, i, 0x05, 0x52, i]))
+        else:
+            i = self.off(self.nlocals)
+            pre = self.expr(1) + bytes([0x64, 0x00, 0x43, 0x01, 0x57, self.nm(b"count"), 0x41, 0x01])
+            head = Frag(bytes([0x64, 0x00, 0x64, 0x02, 0x0D]))
+            body = Frag(bytes([0x64, 0x02, 0x64, 0x01, 0x43, 0x02, 0x57, self.nm(b"getAt"), 0x52, i])) + body
+            tail = Frag(bytes([0x41, 0x01, 0x05]))
+        inner = head + bytes([0x95]) + (3 + len(body) + len(tail) + 2).to_bytes(2, "big") + body + tail
+        dist = len(inner)
+        if dist > 255:
+            self.h("loop-too-long"); return self.simple_stmt(depth, in_tell)
+        self.h("repeat-" + kind)
+        total = dist + 2
+        code = bytearray(inner.code + bytes([0x54, dist]))
+        for e in inner.exits:
+            code[e + 1:e + 3] = (total - e).to_bytes(2, "big")
+        out = pre + Frag(bytes(code))
+        if kind == "in":
+            out += bytes([0x65, 0x03])
+        return out
+
+    def handler(self, nstmts, factory=False):
+        code = self.block(nstmts, 0, False)
+        assert not code.exits
+        end = bytes([0x02 if factory else 0x01]) if self.r.random() < 0.9 else b""
+        return code.code + end
+
+
+def rand_const(rng):
+    c = rng.random()
+    if c < 0.55:
+        if rng.random() < 0.4:
+            return ("s", rng.choice(SPECIAL_STR))
+        return ("s", bytes(rng.choice(b"abcXYZ 019_,.;:!?()[]#&\"\\\t\r\n\x08\x03\x7f\x80\xca\xff'") for _ in range(rng.choice([0, 1, 2, 3, 5, 8, 13]))))
+    if c < 0.8:
+        return ("i", rng.choice([0, 1, -1, 6, 12, 70000, -70000, 2 ** 31 - 1, -2 ** 31, rng.randrange(-2 ** 31, 2 ** 31), rng.randrange(0, 100)]))
+    e = rng.choice([0x3FFF, 0x4000, 0x4005, 0x3FF0, 0x3FBC, 0x4040, 0xC000, 0xBFFF, 0, 1, 0x7FFF, 0x43FE, 0x43FF, 0x3C00, 0x3BCD, rng.randrange(0x3F00, 0x4100), rng.randrange(0, 0x10000)])
+    q = rng.choice([0x8000000000000000, 0xC000000000000000, 0xC00C49BA5E353F7D, 0, 0xFFFFFFFFFFFFFFFF, 0xFFFFFFFFFFFFF800, 0x8000000000000400, 0x8000000000000C00,
+                    rng.randrange(0, 2 ** 64), rng.randrange(2 ** 63, 2 ** 64), int(rng.choice([0.1, 0.5, 3.001, 1e10, 123456.789, 2.5e-5])* 2 ** 63) | 2 ** 63])
+    return ("f", struct.pack(">HQ", e, q & (2 ** 64 - 1)))
+
+
+def rand_script(rng, wild=0.03, hist=None, max_stmts=6):
+    """a random script: (lscr bytes, lnam bytes, spec dict)"""
+    names = list(BASE_NAMES)
+    rng.shuffle(names)
+    for _ in range(rng.randrange(0, 6)):
+        names.append(bytes(rng.choice(b"abcdefgXYZ_09 \xca\x8e<") for _ in range(rng.choice([0, 1, 2, 5, 9]))))
+    names = names[:rng.choice([len(names), len(names), 8, 30])] if rng.random() < 0.15 else names
+    consts = [rand_const(rng) for _ in range(rng.choice([0, 1, 3, 6, 10, 45]))]
+    wide = rng.random() < 0.12
+    bpc = 8 if (wide and consts) else 6
+    kind = rng.choice(["common", "common", "common", "property", "factory"])
+    nh = rng.choice([1, 1, 2, 3])
+    idx = {n: i for i, n in reversed(list(enumerate(names)))}
+    handlers = []
+    for hi in range(nh):
+        nargs = rng.choice([0, 0, 1, 2, 3])
+        nlocals = rng.choice([0, 1, 2, 4])
+        g = HandlerGen(rng, names, len(consts), nargs, nlocals, nh, bpc=bpc, wild=wild, hist=hist)
+        code = g.handler(rng.choice([0, 1, 2, 3, max_stmts]), factory=(kind == "factory"))
+        args = [rng.randrange(1, len(names)) for _ in range(nargs)]
+        if kind == "factory" and nargs:
+            args[0] = 0 if rng.random() < 0.8 else idx.get(b"me", 0)
+        hname = rng.choice([None, b"new", b"birth", b"mNew", b"exitFrame", b"b", b"t"])
+        handlers.append(dict(name=idx.get(hname, rng.randrange(len(names))) if hname else rng.randrange(-1, len(names)),
+                             args=args, locals=[rng.randrange(0, len(names)) for _ in range(nlocals)], code=code))
+    props = [rng.randrange(0, len(names)) for _ in range(rng.choice([1, 2, 5]))] if kind in ("property", "factory") and rng.random() < 0.9 else []
+    if kind == "common" and rng.random() < 0.1:
+        props = [rng.randrange(0, len(names))]
+    globs = [rng.randrange(0, len(names)) for _ in range(rng.choice([0, 0, 1, 3]))]
+    fidx = rng.randrange(0, len(names)) if kind == "factory" else -1
+    lscr = build_lscr(handlers, consts, props, globs, scr_num=rng.choice([1, 7, 300]), factory_name_idx=fidx, wide_consts=wide)
+    lnam = build_lnam(names)
+    return lscr, lnam, dict(kind=kind, nhandlers=nh, nconst=len(consts), wide=wide, nnames=len(names))
